@@ -489,7 +489,7 @@ static int sweep_workday(int part, int nparts, bool thorough) {
   sw.finish(); delete loop; return 0;
 }
 
-struct CronCase { std::string expr; RefCfg ref; const char *known_defect = nullptr; const char *off_switch = nullptr; };   // off_switch: evaluated only when that environment variable is "1" (defect candidate on the unchanged tree)
+struct CronCase { std::string expr; RefCfg ref; const char *known_defect = nullptr; const char *off_switch = nullptr; };   // off_switch: evaluated unless that environment variable is "0" (these were defect candidates; repaired in /repo)   // was: evaluated only when that environment variable is "1" (defect candidate on the unchanged tree)
 static bool env_is_1(const char *k) { const char *e = getenv(k); return e && *e == '1'; }
 // Expressions the bundled ccronexpr (modules/alarm/3rd-party/ccronexpr.cpp) answered wrongly when they were added (three defects in
 // do_next()/find_next(); repair in /verif/build/c20_cron_fix.diff).  They are evaluated by default; C20_CRON_KNOWN_DEFECTS=0 leaves them out
@@ -553,7 +553,7 @@ static int sweep_cron(int part, int nparts, bool thorough) {
       if ((int)(ci % nparts) != part) continue;
       CronCase &c = cases[ci];
       if (c.known_defect && !cron_known_defects_enabled()) { printf("@INFO cron: expr='%s' not evaluated (C20_CRON_KNOWN_DEFECTS=0; it exposed the ccronexpr defect '%s')\n", c.expr.c_str(), c.known_defect); continue; }
-      if (c.off_switch && !env_is_1(c.off_switch)) { printf("@INFO cron: expr='%s' not evaluated (defect candidate on the unchanged tree; %s=1 evaluates it)\n", c.expr.c_str(), c.off_switch); continue; }
+      if (c.off_switch && getenv(c.off_switch) && !strcmp(getenv(c.off_switch), "0")) { printf("@INFO cron: expr='%s' not evaluated (%s=0 given)\n", c.expr.c_str(), c.off_switch); continue; }
       CronProbe a(loop); a.setCallback([] {});
       if (!a.initialize(c.expr)) { sw.viol("cron-initialize-rejected", c.expr); continue; }
       // `now` values: windows of days (dense boundary seconds inside each day) + one probe per day over several years for the yearly shape
@@ -684,7 +684,7 @@ struct Fire { int64_t wall_ms; Snap pre, post; int r_init, r_act; int cal_day; i
 
 // CronAlarm::initialize(valid) followed by initialize(invalid) returns false but leaves the alarm initialised with a PARTIAL expression
 // (memset + partial parse), which enable() then arms: defect candidate on the unchanged tree, so the op is off by default for cron alarms.
-static bool cron_rejected_init_enabled() { const char *e = getenv("C20_CRON_REJECTED_INIT"); return e && *e == '1'; }
+static bool cron_rejected_init_enabled() { const char *e = getenv("C20_CRON_REJECTED_INIT"); return !(e && *e == '0'); }   // on by default since the repair in /repo; =0 turns it off
 
 static int fire(const std::string &cfgname, size_t depth, const char *replay = nullptr) {
   std::vector<FireCfg> cfgs = fire_cfgs(); const FireCfg *cfgp = nullptr;
